@@ -78,7 +78,18 @@ func itoaSmall(i int) string {
 
 // ---- Go models of dependency functions (validated natively against the real ones by selftest) ----
 
-func vrfModelIdent(s string) string { return s }
+// stub for swag.ToGoName: the identity, except that the braces of path templates are dropped (as the real mangler
+// does), so that "get /{a}" and "get /a" collide here as they do natively; harness name pools are chosen so that the
+// stub and the real function induce the same equalities
+func vrfModelIdent(s string) string {
+	out := ""
+	for i := 0; i < len(s); i++ {
+		if s[i] != '{' && s[i] != '}' {
+			out += s[i : i+1]
+		}
+	}
+	return out
+}
 
 func vrfModelReplace2(s string, a, b byte, to string) string {
 	out := ""
